@@ -597,27 +597,33 @@ class MinFlowDecomp(pathmodel.AbstractPathModelDAG): # Note that we inherit from
         if self._lowerbound_k != None:
             return self._lowerbound_k
         
-        stG = stdag.stDAG(self.G)
+        # (a bound whose computation did not finish is no bound: without the reset a failed call left the partial value
+        # behind and the next solve() of the same model skipped the step that had failed)
+        try:
+            stG = stdag.stDAG(self.G)
 
-        self._lowerbound_k = self.optimization_options.get("lowerbound_k", 1)
+            self._lowerbound_k = self.optimization_options.get("lowerbound_k", 1)
 
-        # (the flow values have not been validated yet - the first k-model does that: int() of an infinite value raises OverflowError,
-        # so only finite values are counted here and the k-model rejects the others with a ValueError)
-        all_weights = set({int(self.G.edges[e][self.flow_attr]) for e in self.G.edges()
-                           if self.flow_attr in self.G.edges[e] and e not in self.edges_to_ignore and math.isfinite(self.G.edges[e][self.flow_attr])})
+            # (the flow values have not been validated yet - the first k-model does that: int() of an infinite value raises OverflowError,
+            # so only finite values are counted here and the k-model rejects the others with a ValueError)
+            all_weights = set({int(self.G.edges[e][self.flow_attr]) for e in self.G.edges()
+                               if self.flow_attr in self.G.edges[e] and e not in self.edges_to_ignore and math.isfinite(self.G.edges[e][self.flow_attr])})
         
-        self._lowerbound_k = max(self._lowerbound_k, math.ceil(math.log2(len(all_weights))) if all_weights else 0)
+            self._lowerbound_k = max(self._lowerbound_k, math.ceil(math.log2(len(all_weights))) if all_weights else 0)
 
-        self._lowerbound_k = max(self._lowerbound_k, stG.get_width(edges_to_ignore=stG.source_sink_edges.union(self.edges_to_ignore)))
+            self._lowerbound_k = max(self._lowerbound_k, stG.get_width(edges_to_ignore=stG.source_sink_edges.union(self.edges_to_ignore)))
 
-        if self.optimization_options.get("use_min_gen_set_lowerbound", MinFlowDecomp.use_min_gen_set_lowerbound):  
-            mingenset_lowerbound = self._get_lowerbound_with_min_gen_set()
-            if mingenset_lowerbound is not None:
-                self._lowerbound_k = max(self._lowerbound_k, mingenset_lowerbound)
+            if self.optimization_options.get("use_min_gen_set_lowerbound", MinFlowDecomp.use_min_gen_set_lowerbound):  
+                mingenset_lowerbound = self._get_lowerbound_with_min_gen_set()
+                if mingenset_lowerbound is not None:
+                    self._lowerbound_k = max(self._lowerbound_k, mingenset_lowerbound)
 
-        if self.optimization_options.get("use_subgraph_scanning_lowerbound", MinFlowDecomp.use_subgraph_scanning_lowerbound):
-            subgraph_scanning_lowerbound = self._get_lowerbound_with_subgraph_scanning()
-            if subgraph_scanning_lowerbound is not None:
-                self._lowerbound_k = max(self._lowerbound_k, subgraph_scanning_lowerbound)
+            if self.optimization_options.get("use_subgraph_scanning_lowerbound", MinFlowDecomp.use_subgraph_scanning_lowerbound):
+                subgraph_scanning_lowerbound = self._get_lowerbound_with_subgraph_scanning()
+                if subgraph_scanning_lowerbound is not None:
+                    self._lowerbound_k = max(self._lowerbound_k, subgraph_scanning_lowerbound)
         
-        return self._lowerbound_k
+            return self._lowerbound_k
+        except Exception:
+            self._lowerbound_k = None
+            raise
